@@ -498,6 +498,40 @@ sq0\t1\t.\tA\t.\t.\tPASS\t.
     }
 
     #[test]
+    fn test_read_header_with_first_record_reference_sequence_name_starting_with_number_sign()
+    -> io::Result<()> {
+        static DATA: &[u8] = b"\
+##fileformat=VCFv4.3
+##fileDate=20200501
+#CHROM\tPOS\tID\tREF\tALT\tQUAL\tFILTER\tINFO
+#c1\t1\t.\tA\t.\t.\tPASS\t.
+sq0\t2\t.\tC\t.\t.\tPASS\t.
+";
+
+        let mut reader = Reader::new(DATA);
+        let header = reader.read_header()?;
+
+        let mut record = RecordBuf::default();
+
+        let bytes_read = reader.read_record_buf(&header, &mut record)?;
+        assert_eq!(bytes_read, 21);
+        assert_eq!(record.reference_sequence_name(), "#c1");
+
+        let bytes_read = reader.read_record_buf(&header, &mut record)?;
+        assert_eq!(bytes_read, 21);
+        assert_eq!(record.reference_sequence_name(), "sq0");
+
+        let mut reader = Reader::new(DATA);
+        reader.read_header()?;
+
+        let mut record = Record::default();
+        assert_eq!(reader.read_record(&mut record)?, 21);
+        assert_eq!(record.reference_sequence_name(), "#c1");
+
+        Ok(())
+    }
+
+    #[test]
     fn test_read_line() -> io::Result<()> {
         let mut buf = String::new();
 
